@@ -8,15 +8,25 @@ from .spies import Interrupt
 class InterruptAt:
     """raise Interrupt (a BaseException) at the n-th `call` event whose code lives under a pyrates/ source directory"""
 
-    def __init__(self, n):
+    def __init__(self, n, genmodule=False):
         self.n = n
+        self.genmodule = genmodule     # fire when the body of a GENERATED module (a file below the cwd) starts executing
         self.count = 0
         self.fired = 0
         self.where = None
+        self._cwd = None
 
     def _tracer(self, frame, event, arg):
         if event == 'call':
             fn = frame.f_code.co_filename
+            if self.genmodule:
+                if frame.f_code.co_name == '<module>' and '/pyrates/' not in fn and 'site-packages' not in fn \
+                        and '/lib/python' not in fn and not fn.startswith('<'):
+                    self.fired = 1
+                    self.where = f'{os.path.basename(fn)}:<module>'
+                    sys.settrace(None)
+                    raise Interrupt(f'injected interrupt at the start of generated module {os.path.basename(fn)}')
+                return None
             if '/pyrates/' in fn:
                 self.count += 1
                 if self.count == self.n:
